@@ -30,6 +30,8 @@ that fact on the parsed trees and are skipped when it does not hold.
 
   if not C: A else: B               ==>          if C: B else: A    (only when both arms are present)
 
+  L = [x for x in IT if C]; for x in L: BODY     ==>     for x in IT: if C: BODY
+
   L[a:] = [x]                       ==>          del L[a:]; L.append(x)
 
   def make(p): def f(self): B(p); return f
@@ -250,6 +252,7 @@ class Normaliser:
         out: list[ast.stmt] = []
         for st in body:
             out.extend(self.stmt(st))
+        out = self.filtered_loops(out)
         out = self.slice_pops(out)
         out = self.sink_into_arms(out)
         # if C: ...; return V          if not C: raise E
@@ -262,6 +265,38 @@ class Normaliser:
             self.hit("return-then-raise->guard")
             out = out[:-2] + [guard] + list(g.body)
         return out
+
+    def filtered_loops(self, stmts: list[ast.stmt]) -> list[ast.stmt]:
+        """L = [x for x in IT if C]                  for x in IT:
+           for x in L: BODY               ==>           if C: BODY
+        (L a local used for nothing else; BODY neither rebinds nor calls a method on a name that C reads)"""
+        i = 0
+        while i + 1 < len(stmts):
+            a, f = stmts[i], stmts[i + 1]
+            if isinstance(a, ast.Assign) and len(a.targets) == 1 and isinstance(a.targets[0], ast.Name) and isinstance(a.value, ast.ListComp) \
+                    and len(a.value.generators) == 1 and not a.value.generators[0].is_async and isinstance(a.value.generators[0].target, ast.Name) \
+                    and isinstance(a.value.elt, ast.Name) and a.value.elt.id == a.value.generators[0].target.id \
+                    and isinstance(f, ast.For) and not f.orelse and isinstance(f.iter, ast.Name) and f.iter.id == a.targets[0].id and isinstance(f.target, ast.Name):
+                L = a.targets[0].id
+                g = a.value.generators[0]
+                rest_uses = [x for t in stmts[:i] + stmts[i + 2:] for x in ast.walk(t) if isinstance(x, ast.Name) and x.id == L]
+                in_body = [x for t in f.body for x in ast.walk(t) if isinstance(x, ast.Name) and x.id == L]
+                reads = {x.id for c in g.ifs for x in ast.walk(c) if isinstance(x, ast.Name)} - {g.target.id}
+                touched = {x.id for t in f.body for x in ast.walk(t) if isinstance(x, ast.Name) and isinstance(x.ctx, (ast.Store, ast.Del))}
+                touched |= {x.func.value.id for t in f.body for x in ast.walk(t) if isinstance(x, ast.Call) and isinstance(x.func, ast.Attribute) and isinstance(x.func.value, ast.Name)}
+                if not rest_uses and not in_body and not (reads & touched):
+                    m = {g.target.id: ast.Name(id=f.target.id, ctx=ast.Load())} if g.target.id != f.target.id else {}
+                    tests = [_Subst(m).visit(copy.deepcopy(c)) for c in g.ifs]
+                    body: list[ast.stmt] = f.body
+                    if tests:
+                        test = tests[0] if len(tests) == 1 else ast.BoolOp(op=ast.And(), values=tests)
+                        body = [ast.fix_missing_locations(ast.copy_location(ast.If(test=test, body=f.body, orelse=[]), f))]
+                    new = ast.fix_missing_locations(ast.copy_location(ast.For(target=f.target, iter=g.iter, body=body, orelse=[]), f))
+                    stmts = stmts[:i] + [new] + stmts[i + 2:]
+                    self.hit("filter-comprehension+loop->loop-with-test")
+                    continue
+            i += 1
+        return stmts
 
     def slice_pops(self, stmts: list[ast.stmt]) -> list[ast.stmt]:
         """a, b = L[-2:]; del L[-2:]   ==>   b = L.pop(); a = L.pop()     (the same values and the same final L whenever L holds at
